@@ -419,6 +419,25 @@ def known_match(prop, viol, known):
                 # length, so a wrap needs a huge length.  A trace in which some reservation exceeds the length is another defect
                 adds = [int(m_.group(1)) for m_ in (re.match(r"^L \d+ atom C add (\d+) ", l) for l in (viol.get("impl_trace") or [])) if m_]
                 ok = ok and bool(val) and all(a <= int(env.get("len", 0)) for a in adds)
+            elif key == "no_add_inside_skip":
+                # on the kinds listed, skip_to_end does not reserve (it stores the length): a fetch_add on the position
+                # counter between the call and the return of a skip_to_end is not the recorded finding
+                if env.get("kind") in val:
+                    inside = {}
+                    bad = False
+                    for l in (viol.get("impl_trace") or []):
+                        m_ = re.match(r"^E (\d+) call (\S+)", l)
+                        if m_:
+                            inside[m_.group(1)] = m_.group(2) == "skip"
+                            continue
+                        m_ = re.match(r"^E (\d+) ret ", l)
+                        if m_:
+                            inside[m_.group(1)] = False
+                            continue
+                        m_ = re.match(r"^L (\d+) atom C add ", l)
+                        if m_ and inside.get(m_.group(1)):
+                            bad = True
+                    ok = ok and not bad
             elif key == "class":
                 # a wrap of a counter explains wrong deliveries judged by the extracted checkers -- not a dead process,
                 # a hang, a leak, a twin difference, a probe or an undocumented panic
@@ -1119,7 +1138,7 @@ def do_replay(prop, path):
     c = cases[0]
     profile = "release" if c["env"]["mode"] == "wrapping" else "debug"
     binp, blog = build_harness(profile)
-    if stream in ("twin", "frozen-thread", "allocator", "zst", "multi", "chunk-style", "non-fused") and prop in SPECIAL:
+    if stream in ("twin", "frozen-thread", "allocator", "zst", "multi", "chunk-style", "non-fused", "lying-hint") and prop in SPECIAL:
         ONLY[stream] = c
         problems = []
         try:
@@ -1186,6 +1205,15 @@ def special_c13(prop, tier, seed, bins, out, problems):
         return
     n = 300 if tier == "quick" else 2500
     cases = [c for c in gen_cases.stream("C13", seed + 31, n, "wrapping") if c["env"]["adaptor"] != "none"]
+    # "everything that is left": chunk and buffer sizes at the upper end of usize, which the underlying iterators clamp
+    rt = gen_cases.Rng(seed * 4441 + 13)
+    for c in cases:
+        if rt.chance(1, 5):
+            big = rt.choice([gen_cases.UMAX, gen_cases.UMAX // 2 + 1, 1 << 62, gen_cases.UMAX - 3])
+            if c["env"]["kind"] != "iter":
+                # (not on the wrapper over an iterator, which reserves what is requested: F14)
+                p = c["progs"][rt.below(len(c["progs"]))]
+                p.insert(rt.below(len(p) + 1), "chunk:%d:%d" % (big, rt.choice([0, 1, 9])))
     if "twin" in ONLY:
         cases = [ONLY["twin"]]
     text = "".join(gen_cases.fmt_case(c) for c in cases)
@@ -1378,15 +1406,19 @@ def special_c02(prop, tier, seed, bins, out, problems):
     # index fidelity of what a caller gets out of a chunk through nth / skip / last / fold / step_by, every kind
     chunk_style_stream(prop, tier, seed, bins, out, problems,
                        kinds=[("slice", 2), ("vec", 3), ("array", 3), ("range", 2), ("iter", 3)], chks=(2,))
+    nonfused_stream(prop, tier, seed, bins, out, problems, (2,))
+    lying_hint_stream(prop, tier, seed, bins, out, problems, (2,))
 
 
 SPECIAL["C02"] = special_c02
 
 
-def nonfused_stream(prop, tier, seed, bins, out, problems, chks):
-    """a wrapped iterator that is NOT fused: one call of next() returns None although elements remain.  The model assumes a
-    fused source, so these traces are judged by the extracted checkers only: once the end has been reported it stays
-    reported (the completed flag is what makes it so), lengths stay truthful"""
+def nonfused_stream(prop, tier, seed, bins, out, problems, chks, final=None, cut_env=True):
+    """a wrapped iterator that is NOT fused: call number `gap` of next() returns None although elements remain.  The
+    first None is the end (theorem c07_no_call_after_none: next() is not called again), so the implementation traces
+    are judged by the extracted checkers against the environment CUT at the gap (c01_any_iterator_runs_as_fused: the
+    run is that of a fused iterator of the shorter length); the same histories then run in lock step with the model,
+    which has such sources (e_gap)"""
     binp = bins.get("wrapping")
     if binp is None:
         return
@@ -1394,27 +1426,33 @@ def nonfused_stream(prop, tier, seed, bins, out, problems, chks):
     r = gen_cases.Rng(seed * 617 + int(prop[1:]))
     cases = []
     for i in range(n):
-        c = gen_cases.gen_conc(r, "%s-gap-%d" % (prop, i), gen_cases.PULLS_LEN, kinds=[("iter", 1)])
+        c = gen_cases.gen_conc(r, "%s-gap-%d" % (prop, i), gen_cases.PULLS_LEN, kinds=[("iter", 1)], final=final)
         c["gap"] = r.below(c["env"]["len"] + 1)
         c["env"]["hint"] = r.choice(["inexact", "none"])     # a source that ends early cannot have a truthful exact hint
         c["sched"] = None
         for p in c["progs"]:
-            p += [r.choice(["next:val", "chunk:2:9", "next:idval", "len", "more"]) for _ in range(1 + r.below(3))]
+            p += [r.choice(["next:val", "chunk:2:9", "next:idval", "len", "more", "chunk:3:1"]) for _ in range(1 + r.below(3))]
         cases.append(c)
     if "non-fused" in ONLY:
         cases = [ONLY["non-fused"]]
     itraces, dead = run_impl(binp, cases)
     iblocks, _ = parse_blocks(itraces)
     rc = []
+    cut = []
     for c in cases:
         c2 = json.loads(json.dumps(c))
         il = iblocks.get(c["id"])
         if il is not None:
             c2["sched"] = sched_of(il)
         rc.append(c2)
+        c3 = json.loads(json.dumps(c2))
+        c3["env"]["len"] = min(c3["env"]["len"], c3["gap"])
+        c3["env"]["end"] = c3["env"]["len"]
+        c3.pop("gap", None)
+        cut.append(c3)
     cases_path = os.path.join(BUILD, "tmp", "%s-gap-%d.cases" % (prop, os.getpid()))
     os.makedirs(os.path.dirname(cases_path), exist_ok=True)
-    open(cases_path, "w").write("".join(gen_cases.fmt_case(c) for c in rc))
+    open(cases_path, "w").write("".join(gen_cases.fmt_case(c) for c in (cut if cut_env else rc)))
     chk, flags = run_chk(cases_path, itraces, list(chks))
     os.unlink(cases_path)
     ok = 0
@@ -1427,12 +1465,16 @@ def nonfused_stream(prop, tier, seed, bins, out, problems, chks):
             out["violations"].append(rec)
             continue
         failed = [p for p, good in chk.get(cid, {}).items() if not good]
+        fl = flags.get(cid, [])
         if failed:
             rec.update(what="wrapped iterator that is not fused (call %d of next() returns None): checker(s) %s return false on the implementation trace"
                             % (c["gap"], ",".join("chk_C%02d" % int(p) for p in failed)), checker="chk_C%02d" % int(failed[0]), impl_trace=il)
             out["violations"].append(rec)
-        elif any(f.startswith("hang") or f == "incomplete" for f in flags.get(cid, [])):
-            rec.update(what="wrapped iterator that is not fused: %s" % "; ".join(flags.get(cid, [])), impl_trace=il)
+        elif PROPS.get(prop, {}).get("progress") and any(f.startswith("hang") or f == "incomplete" for f in fl):
+            rec.update(what="wrapped iterator that is not fused: a call did not return (hang): %s" % "; ".join(fl), checker="progress", impl_trace=il)
+            out["violations"].append(rec)
+        elif any(f.startswith("hang") or f == "incomplete" for f in fl):
+            rec.update(what="wrapped iterator that is not fused: %s" % "; ".join(fl), impl_trace=il)
             out["divergences"].append(rec)
         else:
             ok += 1
@@ -1440,14 +1482,98 @@ def nonfused_stream(prop, tier, seed, bins, out, problems, chks):
     out["random_schedules"] += len(cases)
     out["traces_validated_against_impl"] += ok
     extra_coverage.setdefault(prop, {})["non_fused_source_cases"] = ok
-    # the model has such sources too (e_gap): the same histories, under the schedules the harness chose, in lock step
+    # lock step with the model under the schedules the harness chose; the checkers that hold of the uncut environment
     before = len(out["divergences"])
-    explore(prop, PROPS[prop], [c for c in rc if c.get("sched") is not None], binp, "non-fused", list(chks), out)
+    direct = [k for k in chks if k in (2, 4, 5, 6, 7, 8, 10, 11)] or [5]
+    explore(prop, PROPS[prop], [c for c in rc if c.get("sched") is not None], binp, "non-fused", direct, out)
     extra_coverage.setdefault(prop, {})["non_fused_lock_step_divergences"] = len(out["divergences"]) - before
+
+
+def lying_hint_stream(prop, tier, seed, bins, out, problems, chks):
+    """a wrapped iterator whose EXACT size hint is not truthful (it yields more or fewer elements than announced).  The
+    model assumes a truthful hint, so these traces are judged by the extracted checkers only, and only by those that
+    do not read the announced length (no position twice, index fidelity, end permanence, skip, progress)"""
+    binp = bins.get("wrapping")
+    if binp is None:
+        return
+    n = 150 if tier == "quick" else 1500
+    r = gen_cases.Rng(seed * 919 + int(prop[1:]))
+    cases = []
+    for i in range(n):
+        c = gen_cases.gen_conc(r, "%s-lie-%d" % (prop, i), gen_cases.PULLS, kinds=[("iter", 1)])
+        c["env"]["hint"] = "exact"
+        ln = c["env"]["len"]
+        c["hintlie"] = r.choice([d for d in (-ln, -3, -2, -1, 1, 2, 5) if ln + d >= 0 and d != 0] or [1])
+        c["sched"] = None
+        for p in c["progs"]:
+            p += [r.choice(["next:val", "chunk:2:9", "next:idval", "chunk:%d:9" % (ln + 1)]) for _ in range(1 + r.below(3))]
+        cases.append(c)
+    if "lying-hint" in ONLY:
+        cases = [ONLY["lying-hint"]]
+    itraces, dead = run_impl(binp, cases)
+    iblocks, _ = parse_blocks(itraces)
+    rc = []
+    for c in cases:
+        c2 = json.loads(json.dumps(c))
+        il = iblocks.get(c["id"])
+        if il is not None:
+            c2["sched"] = sched_of(il)
+        rc.append(c2)
+    cases_path = os.path.join(BUILD, "tmp", "%s-lie-%d.cases" % (prop, os.getpid()))
+    os.makedirs(os.path.dirname(cases_path), exist_ok=True)
+    open(cases_path, "w").write("".join(gen_cases.fmt_case(dict(c, hintlie=0)) for c in rc))
+    chk, flags = run_chk(cases_path, itraces, list(chks))
+    os.unlink(cases_path)
+    ok = 0
+    for c in rc:
+        cid = c["id"]
+        il = iblocks.get(cid)
+        rec = dict(case=c, stream="lying-hint")
+        if cid in dead or il is None:
+            rec.update(what="the harness process died on this case: %s" % dead.get(cid, "no output"), checker="process")
+            out["violations"].append(rec)
+            continue
+        failed = [p for p, good in chk.get(cid, {}).items() if not good]
+        fl = flags.get(cid, [])
+        if failed:
+            rec.update(what="wrapped iterator whose exact size hint is off by %d: checker(s) %s return false on the implementation trace"
+                            % (c["hintlie"], ",".join("chk_C%02d" % int(p) for p in failed)), checker="chk_C%02d" % int(failed[0]), impl_trace=il)
+            out["violations"].append(rec)
+        elif any(f.startswith("hang") or f == "incomplete" for f in fl):
+            rec.update(what="wrapped iterator whose exact size hint is off by %d: a call did not return (hang): %s" % (c["hintlie"], "; ".join(fl)),
+                       checker="progress", impl_trace=il)
+            if PROPS.get(prop, {}).get("progress"):
+                out["violations"].append(rec)
+            else:
+                out["divergences"].append(rec)
+        else:
+            ok += 1
+    out["evaluations"] += len(cases)
+    out["random_schedules"] += len(cases)
+    out["traces_validated_against_impl"] += ok
+    extra_coverage.setdefault(prop, {})["lying_hint_cases"] = ok
 
 
 def special_c05(prop, tier, seed, bins, out, problems):
     nonfused_stream(prop, tier, seed, bins, out, problems, (5,))
+    lying_hint_stream(prop, tier, seed, bins, out, problems, (5,))
+
+
+def mk_special_nonfused(chks, final=None, lying=None, cut_env=True):
+    def sp(prop, tier, seed, bins, out, problems):
+        nonfused_stream(prop, tier, seed, bins, out, problems, chks, final=final, cut_env=cut_env)
+        if lying:
+            lying_hint_stream(prop, tier, seed, bins, out, problems, lying)
+    return sp
+
+
+SPECIAL["C01"] = mk_special_nonfused((1,), lying=(1,))
+SPECIAL["C03"] = mk_special_nonfused((3,))
+SPECIAL["C04"] = mk_special_nonfused((4, 2))
+SPECIAL["C06"] = mk_special_nonfused((6,), lying=(6,))
+# C10: the remainder is what the wrapped iterator still holds, also behind a premature None: judged against the uncut environment
+SPECIAL["C10"] = mk_special_nonfused((10,), final="seq:100", cut_env=False)
+SPECIAL["C12"] = mk_special_nonfused((12,), lying=(5,))
 
 
 SPECIAL["C05"] = special_c05
